@@ -51,7 +51,7 @@ func init() {
 	})
 	register(&Prop{
 		ID: "C12",
-		Rules: []*Rule{rHiddenDetails, rDetailsOrder, {Name: "R-TAINT/redactable", Doc: "a text the library declares safe stays safe as a whole: conversions to redact.RedactableString take only strings that were built as redactable - a constant message relabelled by a cast has the parts between marker runes treated as unsafe and redacted away", Run: func(c *core.Ctx) { runTaintFiltered(c, func(s *Sink) bool { return s.Mode == "redactable" }) }}, rFmtProbeOrder, rDepth, scoped(rFormatArg, "a constant message is stored as it is, never interpreted as a format", func(_ *core.Ctx, k string) bool { return containsAny(k, "errutil.") }), rOwnedBranches, rArgUsed, forwardScoped("WithSafeDetails", "GetAllSafeDetails", "GetSafeDetails", "WithTelemetry", "WithDomain", "New*", "Errorf", "Wrap*", "WithMessage*"), rPassThroughGuard, scoped(rEffect, "read-only operations (accessors, SafeDetails, report building) never rewrite what an error carries as safe details", func(_ *core.Ctx, k string) bool {
+		Rules: []*Rule{rHiddenDetails, rFill, rDetailsOrder, {Name: "R-TAINT/redactable", Doc: "a text the library declares safe stays safe as a whole: conversions to redact.RedactableString take only strings that were built as redactable - a constant message relabelled by a cast has the parts between marker runes treated as unsafe and redacted away", Run: func(c *core.Ctx) { runTaintFiltered(c, func(s *Sink) bool { return s.Mode == "redactable" }) }}, rFmtProbeOrder, rDepth, scoped(rFormatArg, "a constant message is stored as it is, never interpreted as a format", func(_ *core.Ctx, k string) bool { return containsAny(k, "errutil.") }), rOwnedBranches, rArgUsed, forwardScoped("WithSafeDetails", "GetAllSafeDetails", "GetSafeDetails", "WithTelemetry", "WithDomain", "New*", "Errorf", "Wrap*", "WithMessage*"), rPassThroughGuard, scoped(rEffect, "read-only operations (accessors, SafeDetails, report building) never rewrite what an error carries as safe details", func(_ *core.Ctx, k string) bool {
 			return containsAny(k, "SafeDetails", "safeDetails", "tags", "keys", "details")
 		}), rRetain, rErrRefs, rHideKeep, rLoopAlias, rAlwaysWraps, rMemo, scoped(rStdIdentity, "formatting and reporting code", func(_ *core.Ctx, k string) bool {
 			return containsAny(k, "errutil.", "errbase.", "report.", "withstack.", "safedetails.", "barriers.", "secondary.")
@@ -101,7 +101,7 @@ func init() {
 	})
 	register(&Prop{
 		ID: "C07",
-		Rules: []*Rule{scoped(rCodeGetter, "a code accessor reads the code from the layer that carries it, never from the safe details relayed by a barrier or secondary-error wrapper", nil), rBarrierFresh, rHiddenDetails, rArgNotCause, scoped(rNil, "WithSecondaryError with a nil primary error returns nil: the secondary error never becomes the result itself", func(_ *core.Ctx, k string) bool { return containsAny(k, "WithSecondaryError") }), rMarkLayers, rArgUsed, forwardScoped("Handled*", "Opaque", "HandleAsAssertionFailure*", "NewAssertionErrorWithWrappedErrf", "WithSecondaryError", "CombineErrors", "Mark"), rDomainGetter, scoped(rWriteFaithful, "the renderer gives back every newline it takes (Handled computes its message through it)", func(_ *core.Ctx, k string) bool { return strings.Contains(k, "separator") }), scoped(rDetailPrint, "the hidden errors of barriers and secondary-error wrappers are printed, as values, in the verbose rendering", func(_ *core.Ctx, k string) bool { return containsAny(k, "maskedErr", "secondaryError") }), rHide, rHideKeep, rBarrierCtor, rWrapDual, rErrRefs, rFormatArg, rSecondaryAttach, scoped(rRegType, "the barrier and secondary-error types", func(_ *core.Ctx, k string) bool { return containsAny(k, "barriers.", "secondary.") }), {Name: "R-CODEC", Doc: rCodec.Doc + " (restricted to the barrier and secondary-error types)", Run: func(c *core.Ctx) {
+		Rules: []*Rule{scoped(rCodeGetter, "a code accessor reads the code from the layer that carries it, never from the safe details relayed by a barrier or secondary-error wrapper", nil), rBarrierFresh, rHiddenDetails, rFill, rArgNotCause, scoped(rNil, "WithSecondaryError with a nil primary error returns nil: the secondary error never becomes the result itself", func(_ *core.Ctx, k string) bool { return containsAny(k, "WithSecondaryError") }), rMarkLayers, rArgUsed, forwardScoped("Handled*", "Opaque", "HandleAsAssertionFailure*", "NewAssertionErrorWithWrappedErrf", "WithSecondaryError", "CombineErrors", "Mark"), rDomainGetter, scoped(rWriteFaithful, "the renderer gives back every newline it takes (Handled computes its message through it)", func(_ *core.Ctx, k string) bool { return strings.Contains(k, "separator") }), scoped(rDetailPrint, "the hidden errors of barriers and secondary-error wrappers are printed, as values, in the verbose rendering", func(_ *core.Ctx, k string) bool { return containsAny(k, "maskedErr", "secondaryError") }), rHide, rHideKeep, rBarrierCtor, rWrapDual, rErrRefs, rFormatArg, rSecondaryAttach, scoped(rRegType, "the barrier and secondary-error types", func(_ *core.Ctx, k string) bool { return containsAny(k, "barriers.", "secondary.") }), {Name: "R-CODEC", Doc: rCodec.Doc + " (restricted to the barrier and secondary-error types)", Run: func(c *core.Ctx) {
 			runCodec(c, func(cp *codecPair) bool { return containsAny(cp.Name, "barriers.", "secondary.") })
 		}}, {Name: "R-TAINT/redactable", Doc: "the hidden message of a barrier is carried as a redactable string: conversions to redact.RedactableString in package barriers (and what its decoders receive) only from strings that were built as redactable - a plain string relabelled as redactable, or a redactable one escaped again, changes the message text after a hop", Run: func(c *core.Ctx) {
 			runTaintFiltered(c, func(s *Sink) bool { return s.Mode == "redactable" && strings.Contains(s.Name, "barriers.") })
